@@ -1,0 +1,88 @@
+// SPDX-FileCopyrightText: Copyright (c) 2022-2025 Objectionary.com
+// SPDX-License-Identifier: MIT
+
+//! Read-only view of the complete internal state of a [`Sodg`], compiled
+//! only with the cargo feature `verif`. It is used by external verification
+//! tooling to compare the graph with a formal model; it changes nothing.
+
+use crate::{Hex, Label, Persistence, Sodg};
+
+/// Plain copy of one vertex slot.
+#[derive(Debug, Clone, PartialEq, Eq)]
+pub struct VerifVertex {
+    /// Group tag: 0 = absent, 1 = present and ungrouped, >=2 = group slot.
+    pub branch: usize,
+    /// 0 = Empty, 1 = Stored, 2 = Taken.
+    pub persistence: u8,
+    /// Is the data kept in the heap representation?
+    pub vector: bool,
+    /// Raw bytes: all eight array bytes for the inline representation,
+    /// the vector otherwise.
+    pub raw: Vec<u8>,
+    /// The length of the data.
+    pub len: usize,
+    /// Edges in their storage order.
+    pub edges: Vec<(Label, usize)>,
+}
+
+/// Plain copy of the whole graph.
+#[derive(Debug, Clone, PartialEq, Eq)]
+pub struct VerifSnapshot {
+    /// Capacity of the vertex store.
+    pub capacity: usize,
+    /// The position of the id allocator.
+    pub next_v: usize,
+    /// One entry per vertex slot.
+    pub vertices: Vec<Option<VerifVertex>>,
+    /// One entry per group slot: the member list.
+    pub branches: Vec<Option<Vec<usize>>>,
+    /// One entry per group slot: the counter of unread data.
+    pub stores: Vec<Option<usize>>,
+}
+
+impl<const N: usize> Sodg<N> {
+    /// Take a plain copy of the complete internal state.
+    #[must_use]
+    pub fn verif_snapshot(&self) -> VerifSnapshot {
+        let mut vertices = vec![];
+        for k in 0..self.vertices.capacity() {
+            vertices.push(self.vertices.get(k).map(|vtx| VerifVertex {
+                branch: vtx.branch,
+                persistence: match vtx.persistence {
+                    Persistence::Empty => 0,
+                    Persistence::Stored => 1,
+                    Persistence::Taken => 2,
+                },
+                vector: matches!(vtx.data, Hex::Vector(_)),
+                raw: match &vtx.data {
+                    Hex::Vector(v) => v.clone(),
+                    Hex::Bytes(a, _) => a.to_vec(),
+                },
+                len: match &vtx.data {
+                    Hex::Vector(v) => v.len(),
+                    Hex::Bytes(_, l) => *l,
+                },
+                edges: vtx.edges.iter().map(|(a, v)| (*a, *v)).collect(),
+            }));
+        }
+        let mut branches = vec![];
+        for k in 0..self.branches.capacity() {
+            branches.push(
+                self.branches
+                    .get(k)
+                    .map(|s| s.iter().copied().collect::<Vec<usize>>()),
+            );
+        }
+        let mut stores = vec![];
+        for k in 0..self.stores.capacity() {
+            stores.push(self.stores.get(k).copied());
+        }
+        VerifSnapshot {
+            capacity: self.vertices.capacity(),
+            next_v: self.next_v,
+            vertices,
+            branches,
+            stores,
+        }
+    }
+}
